@@ -336,6 +336,17 @@ func webpGrammar(each func(Case)) {
 			each(Case{fmt.Sprintf("webp VP8L %dx%d alpha=%v", d[0], d[1], alpha), data, info})
 		}
 	}
+	// VP8 frame tag variants: bitstream versions 0-3 (libwebp writes 1-3 for the
+	// simple / no loop filter profiles), show_frame clear, any first-partition size
+	for ver := byte(0); ver < 4; ver++ {
+		for _, show := range []byte{0x10, 0} {
+			for _, psz := range [][2]byte{{0x02, 0x00}, {0xFF, 0xFF}, {0, 0}} {
+				data, info := gen.WebPVP8(640, 480, 0, 0, []byte{0, 0, 0, 0, 0, 0}, 0)
+				data[20], data[21], data[22] = show|ver<<1|(psz[0]&7)<<5, psz[0], psz[1]
+				each(Case{fmt.Sprintf("webp VP8 640x480 frame tag version %d show=%v partition bytes %x", ver, show != 0, psz), data, info})
+			}
+		}
+	}
 	vp8, _ := gen.WebPVP8(33, 21, 0, 0, []byte{0, 0, 0, 0, 0, 0}, 0)
 	inner := vp8[12:] // the "VP8 " chunk
 	for flags := 0; flags < 256; flags++ {
